@@ -21,13 +21,18 @@ impl Adapter for FallbackAd {
         "fallback"
     }
     fn gen_cfg(&mut self, rng: &mut Rng, _size: Size) -> Value {
-        json!({"strat": *rng.pick(&["value", "valuefn", "fromerr", "fromreq", "service", "exception"]), "pred": rng.below(2), "bk": *rng.pick(&["ok", "err"])})
+        json!({"strat": *rng.pick(&["value", "valuefn", "fromerr", "fromreq", "service", "exception"]), "pred": rng.below(2), "bk": *rng.pick(&["ok", "err"]), "ord": rng.below(2)})
     }
     fn build(&mut self, cfg: &Value, sim: &mut Sim) {
         let vfn = Arc::new(AtomicU64::new(0));
         let bkc = Arc::new(AtomicU64::new(0));
         let mut b = FallbackLayer::<Req, Resp, IErr>::builder();
         let bk_ok = cfg["bk"] == "ok";
+        // builder call order: predicate before or after the strategy
+        let pred_first = cfg["ord"].as_u64().unwrap_or(0) == 1;
+        if pred_first && cfg["pred"].as_u64().unwrap() == 1 {
+            b = b.handle(|e: &IErr| e.code != 2);
+        }
         b = match cfg["strat"].as_str().unwrap() {
             "value" => b.value(Resp { serial: 7000, req: 0 }),
             "valuefn" => {
@@ -51,7 +56,7 @@ impl Adapter for FallbackAd {
             }
             _ => b.exception(|e: IErr| IErr { code: e.code + 50, serial: e.serial }),
         };
-        if cfg["pred"].as_u64().unwrap() == 1 {
+        if !pred_first && cfg["pred"].as_u64().unwrap() == 1 {
             b = b.handle(|e: &IErr| e.code != 2);
         }
         self.svc = Some(b.build().layer(Inner::new(&sim.w)));
